@@ -36,6 +36,7 @@ type specSrc struct {
 	tag  string
 	get  func(key string) any // flat sources
 	m    any                  // map-like sources: the Go value
+	nested bool               // a record found under a key of another record (not the document itself)
 }
 
 func (st *specState) add(path, code, dtype string) {
@@ -89,7 +90,7 @@ func parseAbsentSpec(data any) bool {
 		}
 		// an empty JSON document is an absent value for a top-level pointer (the repository's own
 		// TestTopLevelOptionalStruct documents this)
-		if mv := reflect.ValueOf(sp.m); mv.Kind() == reflect.Map && mv.Len() == 0 && sp.tag == "json" {
+		if mv := reflect.ValueOf(sp.m); mv.Kind() == reflect.Map && mv.Len() == 0 && sp.tag == "json" && !sp.nested {
 			return true
 		}
 		return parseAbsentSpec(sp.m)
@@ -433,6 +434,9 @@ func (st *specState) structParse(n *Node, data any, dest reflect.Value, path str
 				// documented: flat sources resolve nested fields against the same source
 				if st.quirks["nested-flat"] {
 					st.fire("nested-flat") // as is: the nested schema receives the looked-up scalar
+				} else if f.N.Kind == KPtr && parseAbsentSpec(child) {
+					// an optional record behind a pointer is present in a flat source only if its own key is
+					// (nothing else can mark it present); child stays the blank looked-up value: absent
 				} else {
 					child = src
 				}
@@ -446,7 +450,7 @@ func (st *specState) structParse(n *Node, data any, dest reflect.Value, path str
 						}
 						ctag = ""
 					}
-					child = &specSrc{tag: ctag, m: child}
+					child = &specSrc{tag: ctag, m: child, nested: true}
 				}
 			}
 		}
